@@ -128,6 +128,10 @@ class CuboidCells(Cells):
                     upper_position = _next_float_up(upper_position)
                 while int(upper_position / self._cell_side_lengths[index]) > cell_identifier_list[index]:
                     upper_position = _next_float_down(upper_position)
+                if cell_identifier_list[index] + 1 == self._cells_per_side[index]:
+                    # The last cell always extends up to the greatest position that is smaller than the system length,
+                    # even if the float division of this position by the cell side length rounds up.
+                    upper_position = _next_float_down(setting.system_lengths[index])
                 cell_max.append(upper_position)
             self._cells.append(Cell(tuple(cell_identifier_list), tuple(cell_min), tuple(cell_max)))
 
@@ -207,7 +211,8 @@ class CuboidCells(Cells):
             If the given position lies outside of the simulation box.
         """
         assert all(0.0 <= position[index] <= setting.system_lengths[index] for index in range(setting.dimension))
-        return self._cells[sum(int(position[index] / self._cell_side_lengths[index]) * self._cumulative_product[index]
+        return self._cells[sum(min(int(position[index] / self._cell_side_lengths[index]),
+                                   self._cells_per_side[index] - 1) * self._cumulative_product[index]
                                for index in range(setting.dimension))]
 
     def nearby_cells(self, cell: Cell) -> Set[Cell]:
